@@ -290,7 +290,7 @@ PROPS['C02']['assumptions'] = PROPS['C02']['assumptions'] + _TCP_ASSUME
 PROPS['C04'] = dict(
     lean_modules=['FluentVerif.Props.C04'],
     theorems=['FV.Tcp.C04_success_iff', 'FV.Tcp.C04_bad_response', 'FV.Tcp.C04_deadline_armed', 'FV.Tcp.C04_chunk_on_wire',
-              'FV.Tcp.C04_sequences', 'FV.Tcp.C04_conforming_ack'],
+              'FV.Tcp.C04_sequences', 'FV.Tcp.C04_conforming_ack', 'FV.Tcp.C04_empty_id_witness', 'FV.Tcp.C04_success_nonempty'],
     suites=[_TCP_SUITE],
     rule=_TCP_RULE,
     explanation="C04_conforming_ack: a map with string keys the specification parser finds at the front of the response, in any legal "
@@ -687,7 +687,7 @@ for _p in ('C01', 'C03', 'C04', 'C05', 'C10', 'C13', 'C18'):
 
 # ---- client method skeletons: Client.Send / SendRaw / checkAck / writeAll regenerated (translator/client.go -> Gen/Client.lean) and proved equal to
 # the sequential client model's send / sendRaw for every state, configuration, peer and network behaviour (Tie/Client.lean)
-_SKC_THEOREMS = ['FV.Tie.Client_Send_is_model', 'FV.Tie.Client_SendRaw_is_model', 'FV.Tie.writeAll_shape', 'FV.Tie.Client_Connect_is_model',
+_SKC_THEOREMS = ['FV.Tie.Client_Send_empty_chunk_refused', 'FV.Tie.Client_Send_is_model', 'FV.Tie.Client_SendRaw_is_model', 'FV.Tie.writeAll_shape', 'FV.Tie.Client_Connect_is_model',
                  'FV.Tie.Client_Disconnect_is_model', 'FV.Tie.Client_Reconnect_is_model', 'FV.Tie.Client_TransportPhase_is_model',
                  'FV.Tie.Client_Handshake_is_model']
 _SKC_TEXT = (" Regenerated tie for the client's methods: the bodies of Client.Send, SendRaw, checkAck, writeAll, Connect, Disconnect, Reconnect, connect, "
